@@ -382,7 +382,17 @@ pub fn generate_c04(thorough: bool, seed: u64, em: &mut Emitter) {
 const H_FIELDS: [&str; 9] = ["typ", "cty", "jku", "kid", "x5u", "x5c", "x5t", "x5t_s256", "crit"];
 
 fn header_value(r: &mut Rng, field: &str, class: usize) -> Value {
+    // realistic vocabulary per field: values a library might be tempted to normalise
+    let realistic: &[&str] = match field {
+        "typ" | "cty" => &["application/json", "application/example+sd-jwt", "application/jwt", "JWT", "jwt", "sd-jwt", "sd+jwt", "kb+jwt",
+                           "application/a/b", "APPLICATION/JSON", "application/", "/json", "application/json; charset=utf-8", " json"],
+        "jku" | "x5u" => &["https://issuer.example/jwks.json", "HTTPS://Issuer.Example:443/a/../jwks", "http://localhost/%7Ekeys", "https://issuer.example/jwks.json#frag"],
+        "kid" => &["2024-key-1", "0", "key id with spaces", "did:example:123#key-1", "KEY", "key"],
+        "x5t" | "x5t_s256" => &["dGh1bWJwcmludA", "dGh1bWJwcmludA==", "DGH1BWJWCMLUDA", "-_-_"],
+        _ => &["exp", "b64", "http://example.invalid/UNDEFINED", "EXP"],
+    };
     let s = match class {
+        5 | 6 => realistic[r.below(realistic.len())].to_string(),
         0 => format!("{}-value", field),
         1 => String::new(),
         2 => format!("é{}ü/~", field),
@@ -421,7 +431,7 @@ pub fn generate_c16(thorough: bool, seed: u64, em: &mut Emitter) {
         h.typ = None;
         let mut expect = serde_json::Map::new();
         expect.insert("alg".into(), json!(alg));
-        let class = r.below(5);
+        let class = r.below(7);
         for (i, f) in H_FIELDS.iter().enumerate() {
             if subset & (1 << i) == 0 {
                 continue;
